@@ -44,6 +44,8 @@ fn main() {
     let mut tr = Trace::new(&args[3]);
     let mut rng = Rng::new(seed);
     let mut g = Game::new(&mut tr);
+    // pool of (state, line of the event that observed it sequentially) for the cross-state phase
+    let mut pool: Vec<(GameState, usize)> = Vec::new();
     for round in 0..rounds {
         // a parent with some history behind it, preferably late in a turn.  Two rounds out of three
         // the game is confined to a small region and steered towards twice-seen positions, so that
@@ -152,6 +154,63 @@ fn main() {
         }
         if !g.tr.reobs(&parent, pop) {
             break;
+        }
+        // remember this parent and some of its children for the cross-state phase: each is observed
+        // once more sequentially by an ordinary probe event, whose line number identifies it
+        if pool.len() < 400 {
+            for a in norep.iter().take(6) {
+                if !g.probe(a) {
+                    break;
+                }
+                let line = g.tr.lines; // the probe event just written
+                if let Ok(child) = apply(&parent, a) {
+                    pool.push((child, line));
+                }
+            }
+        }
+        // cross-state phase every 25 rounds: many DIFFERENT states are observed concurrently, so that
+        // any process-wide mutable state (a cache, a memo table) is hit by interleaved readers/writers
+        if (round + 1) % 20 == 0 && pool.len() >= 50 {
+            let states: Vec<&GameState> = pool.iter().map(|x| &x.0).collect();
+            let barrier = Barrier::new(THREADS);
+            let mut res: Vec<Vec<(usize, String)>> = Vec::new();
+            std::thread::scope(|sc| {
+                let mut hs = Vec::new();
+                for t in 0..THREADS {
+                    let states = &states;
+                    let barrier = &barrier;
+                    let mut trng = Rng::new(seed * 7777 + (round * 100 + t) as u64);
+                    hs.push(sc.spawn(move || {
+                        let mut out = Vec::new();
+                        let mut order: Vec<usize> = (0..states.len()).collect();
+                        trng.shuffle(&mut order);
+                        barrier.wait();
+                        for &k in order.iter() {
+                            let d = match guarded(|| digest(&obs_fields(states[k], true))) {
+                                Ok(d) => d,
+                                Err(p) => format!("panic:{}", p),
+                            };
+                            out.push((k, d));
+                        }
+                        out
+                    }));
+                }
+                for h in hs {
+                    res.push(h.join().unwrap_or_default());
+                }
+            });
+            let mut pop = g.pending_pop;
+            for _ in 0..pop {
+                g.stack.pop();
+            }
+            g.pending_pop = 0;
+            for (t, r) in res.iter().enumerate() {
+                for (k, d) in r.iter() {
+                    g.tr.pdig(t + 1, pool[*k].1, d, pop);
+                    pop = 0;
+                }
+            }
+            pool.clear();
         }
     }
     g.tr.flush();
